@@ -5,6 +5,7 @@ import Driver.Pb
 import Driver.Idl
 import Driver.Gen
 import Driver.Build
+import Driver.Graph
 /-
   `pmodel`: reads request lines on stdin, prints the model's answer line for each.
 -/
@@ -13,13 +14,14 @@ open Pilota
 def answerLine (docs : Driver.Gen.Docs) (line : String) : Driver.Gen.Docs × String :=
   let t := line.trimAscii.toString
   if t.isEmpty || t.startsWith "#" then (docs, "")
+  else if t.endsWith " oracle-only" && (t.startsWith "skv " ) then (docs, "not-asked")   -- very large containers in the harness's repeat shorthand
   else match Sexp.parseLine t with
     | none => (docs, "bad-request")
     | some items =>
       match Driver.Gen.answer docs items with
       | some r => r
       | none => (docs,
-      match [Driver.Thrift.answer, Driver.Thrift2.answer, Driver.Thrift3.answer, Driver.Pb.answer, Driver.Idl.answer, Driver.Build.answer].findSome? (· items) with
+      match [Driver.Thrift.answer, Driver.Thrift2.answer, Driver.Thrift3.answer, Driver.Pb.answer, Driver.Idl.answer, Driver.Build.answer, Driver.Graph.answer].findSome? (· items) with
       | some a => a
       | none => "bad-request")
 
